@@ -61,9 +61,9 @@ def c_geometry(kmax):
     return dict(results=out, functions=["litex.soc.cores.ecc.compute_m_n", "litex.soc.cores.ecc.compute_cover_positions"])
 
 def cases(tier):
-    ks = list(range(1, 17)) + [26, 32, 57, 64] if tier == "quick" else list(range(1, 129))
+    ks = list(range(1, 17)) + [26, 32, 57, 64, 120, 128] if tier == "quick" else list(range(1, 129))
     cs = [Case(f"ECC(k={k})", c_ecc, k, timeout=1200) for k in ks]
     cs.append(Case("geometry", c_geometry, 128))
     return cs
 
-ASSUMPTIONS = ["data widths from the grid (quick: 1-16, 26, 32, 57, 64; thorough: 1-128); all data words and all flip positions symbolic"]
+ASSUMPTIONS = ["data widths from the grid (quick: 1-16, 26, 32, 57, 64, 120, 128; thorough: 1-128); all data words and all flip positions symbolic"]
